@@ -41,7 +41,9 @@ class C10(ParserSessionProp):
         rng = gen.stream(seed, 'C10:largek', index)
         nprng = gen.np_stream(rng)
         head = rng.random() < 0.5
-        table = {f'Y{i} || Y{j}': [[f'Y{(i + 2 * j) % 3}', f'r{i}{j}', f'<r{i}{j}>', head]] for i in range(3) for j in range(3)}
+        table = {f'Y{i} || Y{j}': [[f'Y{(i + 2 * j) % 3}', f'r{i}{j}', f'<r{i}{j}>', head],
+                                   [f'Y{(i + 2 * j + 1) % 3}', f's{i}{j}', f'<s{i}{j}>', head]][:rng.choice([1, 2, 2])]
+                 for i in range(3) for j in range(3)}
         sentences = []
         for sid, n in enumerate([8, rng.choice([3, 4])]):
             tag, dep = gen.make_scores(nprng, rng, n, 3, rng.choice(['continuous', 'quantised']))
